@@ -373,6 +373,9 @@ type fakeLookupStream struct {
 	ctx  context.Context
 	mtx  sync.Mutex
 	sent []*bifrost_rpc_access.LookupRpcServiceResponse
+	// onSend runs inside Send, after the message was recorded and before Send returns:
+	// the harness uses it to deliver the next history events WHILE the send is in progress.
+	onSend func()
 }
 
 func (s *fakeLookupStream) Context() context.Context { return s.ctx }
@@ -380,7 +383,15 @@ func (s *fakeLookupStream) Send(m *bifrost_rpc_access.LookupRpcServiceResponse) 
 	s.mtx.Lock()
 	s.sent = append(s.sent, m.CloneVT())
 	s.mtx.Unlock()
+	if s.onSend != nil {
+		s.onSend()
+	}
 	return nil
+}
+func (s *fakeLookupStream) count() int {
+	s.mtx.Lock()
+	defer s.mtx.Unlock()
+	return len(s.sent)
 }
 func (s *fakeLookupStream) SendAndClose(m *bifrost_rpc_access.LookupRpcServiceResponse) error {
 	return s.Send(m)
@@ -400,6 +411,7 @@ type act struct {
 	ok     bool
 	idle   bool
 	hasErr bool
+	inSend bool // deliver this event from inside a strm.Send call if one happens in time
 }
 
 func (a act) term() string {
@@ -416,11 +428,11 @@ func (a act) term() string {
 func (a act) String() string {
 	switch a.kind {
 	case 0:
-		return fmt.Sprintf("add(%d,%v)", a.id, a.ok)
+		return fmt.Sprintf("add(%d,%v)%s", a.id, a.ok, map[bool]string{true: "@send"}[a.inSend])
 	case 1:
-		return fmt.Sprintf("remove(%d)", a.id)
+		return fmt.Sprintf("remove(%d)%s", a.id, map[bool]string{true: "@send"}[a.inSend])
 	default:
-		return fmt.Sprintf("idle(%v,err=%v)", a.idle, a.hasErr)
+		return fmt.Sprintf("idle(%v,err=%v)%s", a.idle, a.hasErr, map[bool]string{true: "@send"}[a.inSend])
 	}
 }
 
@@ -439,7 +451,7 @@ func respTerm(m *bifrost_rpc_access.LookupRpcServiceResponse) string {
 }
 
 // driveLookup runs the real LookupRpcService against the callback history.
-func driveLookup(hist []act) (sent []*bifrost_rpc_access.LookupRpcServiceResponse, result int, panicked bool) {
+func driveLookup(hist []act, wantQuiescent int) (quiescent, sent []*bifrost_rpc_access.LookupRpcServiceResponse, result int, panicked bool) {
 	fb := &fakeBus{}
 	srv := bifrost_rpc_access.NewAccessRpcServiceServer(fb, false, nil)
 	strm := &fakeLookupStream{ctx: context.Background()}
@@ -476,7 +488,7 @@ func driveLookup(hist []act) (sent []*bifrost_rpc_access.LookupRpcServiceRespons
 		}
 	}
 	inv := &recInvoker{}
-	for _, a := range hist {
+	deliver := func(a act) {
 		switch a.kind {
 		case 0:
 			var v directive.Value = "not-an-invoker"
@@ -494,6 +506,65 @@ func driveLookup(hist []act) (sent []*bifrost_rpc_access.LookupRpcServiceRespons
 			idleCb(a.idle, errs)
 		}
 	}
+	// events are delivered in history order, by the driver or from inside strm.Send
+	var cmtx sync.Mutex
+	cursor := 0
+	strm.onSend = func() {
+		cmtx.Lock()
+		for cursor < len(hist) && hist[cursor].inSend {
+			deliver(hist[cursor])
+			cursor++
+			inSendDelivered++
+		}
+		cmtx.Unlock()
+	}
+	for {
+		cmtx.Lock()
+		if cursor >= len(hist) {
+			cmtx.Unlock()
+			break
+		}
+		if !hist[cursor].inSend {
+			deliver(hist[cursor])
+			cursor++
+			cmtx.Unlock()
+			continue
+		}
+		at := cursor
+		cmtx.Unlock()
+		// give a Send in progress (or about to start) the chance to pick the event up
+		deadline := time.Now().Add(10 * time.Millisecond)
+		for time.Now().Before(deadline) {
+			cmtx.Lock()
+			moved := cursor != at
+			cmtx.Unlock()
+			if moved {
+				break
+			}
+			runtime.Gosched()
+		}
+		cmtx.Lock()
+		if cursor == at { // no Send came: the driver delivers it
+			deliver(hist[cursor])
+			cursor++
+		}
+		cmtx.Unlock()
+	}
+	// quiescence before dispose: wait until the stream has what the history requires
+	// (returns at once on a correct implementation; a lost wake-up runs into the timeout)
+	if wantQuiescent >= 0 {
+		deadline := time.Now().Add(quiesceTimeout)
+		for strm.count() < wantQuiescent && time.Now().Before(deadline) {
+			time.Sleep(200 * time.Microsecond)
+		}
+		// settle: nothing more may arrive
+		for k := 0; k < 20; k++ {
+			runtime.Gosched()
+		}
+	}
+	strm.mtx.Lock()
+	quiescent = append(quiescent, strm.sent...)
+	strm.mtx.Unlock()
 	fb.handler.HandleInstanceDisposed(fb.inst)
 	var err error
 	select {
@@ -515,11 +586,27 @@ func driveLookup(hist []act) (sent []*bifrost_rpc_access.LookupRpcServiceRespons
 	return
 }
 
+var inSendDelivered int
+var quiesceTimeout = 3 * time.Second
+
 func c36(c *hx.Ctx) {
 	c.Type = "c36_case"
 	c.Agree = "c36_agree"
-	c.Rule = "callback histories (length 0-14) over value ids {1,2,3}: adds/removes incl. removes of absent ids and non-invoker values, idle toggles and repeats; 10% with a repeated add of a present id (outside the bus contract), 10% with a resolver error; real LookupRpcService on a fake bus/stream; component ids: requests over a small alphabet and random bytes, plus truncated/mutated/extended encodings; non-trivial = a history that reports at least one Exists, or an accepted decoding"
+	c.Rule = "callback histories delivered by the driver AND from inside strm.Send (a base history with the in-Send burst starting at every position x 3 burst lengths, then random bursts), quiescence observed before dispose; callback histories (length 0-14) over value ids {1,2,3}: adds/removes incl. removes of absent ids and non-invoker values, idle toggles and repeats; 10% with a repeated add of a present id (outside the bus contract), 10% with a resolver error; real LookupRpcService on a fake bus/stream; component ids: requests over a small alphabet and random bytes, plus truncated/mutated/extended encodings; non-trivial = a history that reports at least one Exists, or an accepted decoding"
 	nHist := c.N / 2
+	// crafted: one base history, the in-Send burst starting at every position, three burst lengths
+	var crafted [][]act
+	base := []act{{kind: 0, id: 1, ok: true}, {kind: 1, id: 1}, {kind: 0, id: 2, ok: true}, {kind: 2, idle: true}, {kind: 1, id: 2}, {kind: 2, idle: false}, {kind: 0, id: 1, ok: true}, {kind: 0, id: 3, ok: true}, {kind: 1, id: 1}, {kind: 1, id: 3}}
+	for pos := 1; pos < len(base); pos++ {
+		for _, bl := range []int{1, 2, len(base)} {
+			h := append([]act{}, base...)
+			for j := pos; j < len(h) && j < pos+bl; j++ {
+				h[j].inSend = true
+			}
+			crafted = append(crafted, h)
+		}
+	}
+	lostReports := 0
 	for i := 0; i < nHist; i++ {
 		n := c.Rng.Intn(15)
 		dup := c.Rng.Intn(10) == 0
@@ -561,11 +648,56 @@ func c36(c *hx.Ctx) {
 				hist = append(hist, act{kind: 2, idle: c.Rng.Intn(2) == 0, hasErr: withErr && c.Rng.Intn(3) == 0})
 			}
 		}
+		if i < len(crafted) {
+			hist, illFormed = crafted[i], false
+		} else if c.Rng.Intn(4) != 0 {
+			// events arriving while strm.Send is in progress: random bursts
+			for j := range hist {
+				hist[j].inSend = j > 0 && c.Rng.Intn(5) < 2
+			}
+		}
 		hasErr := false
 		for _, a := range hist {
 			hasErr = hasErr || a.hasErr
 		}
-		sent, result, pn := driveLookup(hist)
+		// what the code must have queued after the whole history (len(vals)==1 after an insert)
+		wantQ := -1
+		if !hasErr {
+			wantQ = 0
+			cnt := map[uint32]bool{}
+			idle := false
+			for _, a := range hist {
+				switch a.kind {
+				case 0:
+					if a.ok {
+						cnt[a.id] = true
+						if len(cnt) == 1 {
+							wantQ++
+						}
+					}
+				case 1:
+					if cnt[a.id] {
+						delete(cnt, a.id)
+						if len(cnt) == 0 {
+							wantQ++
+						}
+					}
+				case 2:
+					if a.idle != idle {
+						idle = a.idle
+						wantQ++
+					}
+				}
+			}
+		}
+		quiescent, sent, result, pn := driveLookup(hist, wantQ)
+		if lostReports >= 3 {
+			quiesceTimeout = 100 * time.Millisecond // enough replays recorded: do not wait long again
+		}
+		sq := make([]string, len(quiescent))
+		for k, m := range quiescent {
+			sq[k] = respTerm(m)
+		}
 		hs := make([]string, len(hist))
 		ht := make([]string, len(hist))
 		for k, a := range hist {
@@ -577,7 +709,7 @@ func c36(c *hx.Ctx) {
 			st[k] = respTerm(m)
 			ss[k] = st[k]
 		}
-		desc := map[string]any{"kind": "history", "history": hs, "sent": ss, "result": result, "ill_formed_dup_add": illFormed}
+		desc := map[string]any{"kind": "history", "history": hs, "sent_at_quiescence_before_dispose": sq, "sent": ss, "result": result, "ill_formed_dup_add": illFormed}
 		if pn {
 			result = 3
 			c.Failf("lookup-panic", desc, "LookupRpcService panicked")
@@ -622,6 +754,22 @@ func c36(c *hx.Ctx) {
 			if !slices.Equal(want, st) {
 				c.Failf("lookup-reports", desc, "response stream %v, the provider/idle history requires %v", st, want)
 			}
+			// at quiescence (history over, nothing disposed yet) the remote side must know the final state
+			if !slices.Equal(want, sq) {
+				lostReports++
+				lastER, lastIdle := "none", false
+				for _, r := range sq {
+					switch r {
+					case "RExists", "RRemoved":
+						lastER = r
+					case "(RIdle true)":
+						lastIdle = true
+					case "(RIdle false)":
+						lastIdle = false
+					}
+				}
+				c.Failf("lookup-lost-report", desc, "after the history the stream had only %v (last availability report %s, last idle report %v) although %d provider(s) are present and idle=%v: %v was still unreported until the directive was disposed", sq, lastER, lastIdle, len(cnt), idle, want[len(sq):min(len(want), len(sq)+3)])
+			}
 			last := ""
 			for _, r := range st {
 				if r == "RExists" || r == "RRemoved" {
@@ -638,11 +786,12 @@ func c36(c *hx.Ctx) {
 				c.Failf("lookup-result", desc, "call returned class %d, expected the disposed error", result)
 			}
 		}
-		c.Case(hx.App("Hist", hx.List(ht), hx.List(st), hx.Nat(result)), desc)
+		c.Case(hx.App("Hist", hx.List(ht), hx.List(sq), hx.List(st), hx.Nat(result)), desc)
 		if slices.Contains(st, "RExists") {
 			c.Nontrivial("h" + strings.Join(hs, ","))
 		}
 	}
+	c.Extra["events_delivered_inside_send"] = inSendDelivered
 	// ---- component ids ----
 	alpha := []string{"", "a", "b", "/", "ab", "a/b", "svc.Echo", "\x00", "\xff\xfe", "1", "11"}
 	pick := func() string {
